@@ -102,7 +102,7 @@ func NewComponents(spec openapi3.Components, opts SchemaOptions) (zero Component
 		case "cookie":
 			cookieParameters[k] = v
 		default:
-			return zero, fmt.Errorf("unexpected parameter 'in' value: %q", v.Value.In)
+			return zero, fmt.Errorf("parameter %q: unexpected parameter 'in' value: %q", k, v.Value.In)
 		}
 	}
 
